@@ -42,6 +42,8 @@ type pkgInfo struct {
 	vars    map[string]*ast.ValueSpec // top-level vars
 	varIdx  map[string]int            // index of the name within its spec
 	mutable map[string]bool
+	types   map[string]bool // struct types declared in the package
+	shared  map[string]bool // types of which a package-level variable holds an instance (singletons)
 }
 
 func modulePath(root string) string {
@@ -176,7 +178,8 @@ func main() {
 			pi := pkgs[imp]
 			if pi == nil {
 				pi = &pkgInfo{dir: dir, imp: imp, files: map[string]*ast.File{}, src: map[string][]byte{},
-					vars: map[string]*ast.ValueSpec{}, varIdx: map[string]int{}, mutable: map[string]bool{}}
+					vars: map[string]*ast.ValueSpec{}, varIdx: map[string]int{}, mutable: map[string]bool{},
+					types: map[string]bool{}, shared: map[string]bool{}}
 				pkgs[imp] = pi
 			}
 			pi.files[p] = f
@@ -307,6 +310,81 @@ func main() {
 			}
 		}
 	}
+	// singletons: types declared in a package of which a mutable package-level variable holds an
+	// instance (directly, through a pointer, or inside a table); the statements of their methods
+	// that use the receiver get yield points too, because the state of a singleton changes behind
+	// its methods, without any reference to the variable
+	for _, pi := range pkgs {
+		for _, f := range pi.files {
+			for _, d := range f.Decls {
+				if gd, ok := d.(*ast.GenDecl); ok && gd.Tok == token.TYPE {
+					for _, s := range gd.Specs {
+						ts := s.(*ast.TypeSpec)
+						if _, ok := ts.Type.(*ast.StructType); ok {
+							pi.types[ts.Name.Name] = true
+						}
+					}
+				}
+			}
+		}
+		typeName := func(e ast.Expr) string {
+			for {
+				switch x := e.(type) {
+				case *ast.StarExpr:
+					e = x.X
+				case *ast.ParenExpr:
+					e = x.X
+				case *ast.Ident:
+					return x.Name
+				default:
+					return ""
+				}
+			}
+		}
+		for name, vs := range pi.vars {
+			if !pi.mutable[name] {
+				continue
+			}
+			if vs.Type != nil {
+				if t := typeName(vs.Type); pi.types[t] {
+					pi.shared[t] = true
+				}
+			}
+			for _, v := range vs.Values {
+				ast.Inspect(v, func(n ast.Node) bool {
+					switch x := n.(type) {
+					case *ast.FuncLit:
+						return false
+					case *ast.CompositeLit:
+						if x.Type != nil {
+							if t := typeName(x.Type); pi.types[t] {
+								pi.shared[t] = true
+							}
+						}
+					case *ast.CallExpr:
+						if id, ok := x.Fun.(*ast.Ident); ok {
+							if id.Name == "new" && len(x.Args) == 1 {
+								if t := typeName(x.Args[0]); pi.types[t] {
+									pi.shared[t] = true
+								}
+							}
+							for _, pre := range []string{"New", "new"} {
+								if t := strings.TrimPrefix(id.Name, pre); t != id.Name {
+									if pi.types[t] {
+										pi.shared[t] = true
+									}
+									if lt := strings.ToLower(t[:1]) + t[1:]; len(t) > 0 && pi.types[lt] {
+										pi.shared[lt] = true
+									}
+								}
+							}
+						}
+					}
+					return true
+				})
+			}
+		}
+	}
 	// insertion
 	out := map[string]string{}
 	type ins struct {
@@ -332,6 +410,7 @@ func main() {
 		imps := importsOf(f)
 		rel, _ := filepath.Rel(root, p)
 		var inserts []ins
+		var curRecv *ast.Object // receiver of the singleton method being visited, if any
 		refs := func(n ast.Node) bool {
 			found := false
 			skip := map[*ast.Ident]bool{}
@@ -374,6 +453,9 @@ func main() {
 					}
 				case *ast.Ident:
 					if !skip[x] && pi.mutable[x.Name] && isTopLevel(pi, x) {
+						found = true
+					}
+					if !skip[x] && curRecv != nil && x.Obj == curRecv {
 						found = true
 					}
 				}
@@ -446,6 +528,16 @@ func main() {
 			if !ok || fd.Body == nil || (fd.Recv == nil && fd.Name.Name == "init") {
 				continue
 			}
+			curRecv = nil
+			if fd.Recv != nil && len(fd.Recv.List) == 1 && len(fd.Recv.List[0].Names) == 1 {
+				t := fd.Recv.List[0].Type
+				if st, ok := t.(*ast.StarExpr); ok {
+					t = st.X
+				}
+				if id, ok := t.(*ast.Ident); ok && pi.shared[id.Name] {
+					curRecv = fd.Recv.List[0].Names[0].Obj
+				}
+			}
 			visitList(fd.Body.List)
 		}
 		if len(inserts) == 0 {
@@ -478,14 +570,19 @@ func main() {
 	type rep struct {
 		Files   map[string]string   `json:"files"`
 		Mutable map[string][]string `json:"mutable"`
+		Shared  map[string][]string `json:"singleton_types"`
 		Sites   int                 `json:"sites"`
 	}
-	r := rep{Files: out, Mutable: map[string][]string{}}
+	r := rep{Files: out, Mutable: map[string][]string{}, Shared: map[string][]string{}}
 	for imp, pi := range pkgs {
 		for n := range pi.mutable {
 			r.Mutable[imp] = append(r.Mutable[imp], n)
 		}
 		sort.Strings(r.Mutable[imp])
+		for n := range pi.shared {
+			r.Shared[imp] = append(r.Shared[imp], n)
+		}
+		sort.Strings(r.Shared[imp])
 	}
 	for _, dest := range out {
 		b, _ := os.ReadFile(dest)
